@@ -150,3 +150,12 @@ def native_replay(rep):
     if bad is None:
         return {"confirmed": False, "observed": f"no violation among {n} generated fingerprints/histories/windows"}
     return {"confirmed": True, "observed": bad, "found_by": f"bounded generation ({n} cases)"}
+
+
+# ---------------------------------------------------------------- collaborators that ImmuneSystem.inspect assumes total: their own totality obligations
+shape("ImmuneMemoryT", signatures="list:obj:ThreatSignature", capacity="int")
+contract(D + "treg.py::ToleranceRecord.record_inspection", "C17", raises=[], ensures={})
+contract(D + "memory.py::ImmuneMemory.recall_by_hashes", "C17", self_type="ImmuneMemoryT", raises=[],
+         loops={"for sig in self.signatures": {"invariant": ["True"]}},
+         ensures={"recalled-signature-matches-the-query": "implies(result is not None, result.agent_id == agent_id and result.vocabulary_hash == vocabulary_hash "
+                                                          "and result.structure_hash == structure_hash)"})
